@@ -14,13 +14,22 @@ Definition at_rest (s : st) : Prop :=
 (* every request whose handler was started on connection r had its response delivered, unless the client had closed *)
 Definition answered (r : conn) : Prop := started r = delivered r + lostc r.
 
-(* Shutdown is past close(s.done) (and, when it returned nil, there was something to shut down) *)
-Definition done_must_be_closed (s : st) : Prop :=
+(* a call of ShutdownWithContext is past close(s.done) and still running, or the last call gave up after that point *)
+Definition shutdown_past_close_done (s : st) : Prop :=
   match sd s with
   | SLoop | SReadServing | SReadOpen | SWait | SReturnedErr => True
-  | SReturnedNil => loops s <> []
   | _ => False
   end.
+
+(* the channel ctx.Done() gave to the handler running on connection r (if one is running) has been closed *)
+Definition done_closed_for (s : st) (r : conn) : Prop :=
+  pc r = CHandler -> exists ch, cdone r = Some ch /\ chan_closed (dn s) ch = true.
+
+(* no call of Shutdown is running, no call that returned ctx.Err() is pending (it stays pending until a later call has gone through
+   its whole loop), and Serve has not registered a listener since the last closeListenersLocked: the situation right after a call
+   returned nil *)
+Definition just_shut_down (s : st) : Prop :=
+  sd_running s = false /\ tainted (dn s) = false /\ Forall (fun lp => inln lp = false) (loops s).
 
 (* an idle keep-alive connection: marked idle since a past time, waiting for its next request, nothing received *)
 Definition idle_keepalive (s : st) (r : conn) : Prop :=
